@@ -1,6 +1,7 @@
 import CV.Driver.Util
 import CV.Model.Quant
 import CV.Model.QuantFloatReplica
+import CV.Model.SoftFloat
 /-!
 Line protocol for component `quant` (float-derived entropy models).
 
@@ -9,6 +10,7 @@ quant.fast    <ctor> <f32|f64> <B> <P> <norm|-> <tbl> | dec q | sweep lo hi stri
 quant.perfect <f32|f64> <B> <P> <tbl> <weights>                  -> rejected | ok valid | ok invalid
 quant.lazy    <f32|f64> <B> <P> <norm|-> <tbl> | op | op …       ops: enc s / dec q / table / sweep lo hi stride
 quant.new     <sym> <B> <P> <min> <max>                          -> ok <free> | panic:other
+quant.sfop    <f32|f64> <a> <b> <n>                              -> add mul div le u8 u16 u32 u64 ofnat   (bit patterns; `nan` for any NaN)
 quant.leaky   <sym> <B> <P> <min> <max> <hint> <dist…> | op | …  ops: full rec / enc s rec / dec q inv rec /
                                                                       table rec / sweep lo hi stride
 ```
@@ -333,15 +335,42 @@ def newLine (sym b p mn mx : String) : Option (M LQ) := do
 def parseFloatTy (s : String) : Option Bool :=
   if s == "f32" then some true else if s == "f64" then some false else none
 
+/-- the answer is the one of the **software IEEE model** (`CV.Model.SoftFloat`, the model the
+    `C03_ieee` theorems are about); the native-float replica must give the same answer, otherwise
+    the line is answered with a diagnostic that cannot match the implementation -/
+def both (soft native : String) : String :=
+  if soft == native then soft else "soft-native-diff soft=[" ++ soft ++ "] native=[" ++ native ++ "]"
+
+/-- one sample of every software float operation, as bit patterns -/
+def sfopLine (f : Fmt) (w a b n : Nat) : String :=
+  let o := f.ops
+  let x := o.ofBits a
+  let y := o.ofBits b
+  let isNan (bits : Nat) : Bool :=
+    ((bits >>> (f.p - 1)) % 2 ^ f.ebits == f.expMask) && (bits % 2 ^ (f.p - 1) != 0)
+  let fl (r : SF) : String := let bits := o.toBits r; if isNan bits then "nan" else toHex (bits % 2 ^ w)
+  " ".intercalate [fl (o.add x y), fl (o.mul x y), fl (o.div x y), (if o.le x y then "1" else "0"),
+    toHex (o.toUInt 8 x), toHex (o.toUInt 16 x), toHex (o.toUInt 32 x), toHex (o.toUInt 64 x),
+    fl (o.ofNat64 n)]
+
 def handle (segs : List (List String)) : String :=
   match segs with
   | ["quant.fast", ctor, f, b, p, norm, tbl] :: ops =>
     match parseFloatTy f, parseHex b, parseHex p, parseOptHex norm, parseList tbl with
     | some is32, some B, some P, some norm, some tbl =>
       if P = 0 ∨ P > B then "bad-op"
-      else if is32 then fastLine f32Ops B P norm tbl (ctor != "ncenc") ops
-      else fastLine f64Ops B P norm tbl (ctor != "ncenc") ops
+      else if is32 then both (fastLine sf32Ops B P norm tbl (ctor != "ncenc") ops)
+                              (fastLine f32Ops B P norm tbl (ctor != "ncenc") ops)
+      else both (fastLine sf64Ops B P norm tbl (ctor != "ncenc") ops)
+                (fastLine f64Ops B P norm tbl (ctor != "ncenc") ops)
     | _, _, _, _, _ => "bad-op"
+  | [["quant.sfop", f, a, b, n]] =>
+    match parseFloatTy f, parseHex a, parseHex b, parseHex n with
+    | some is32, some a, some b, some n =>
+      if n ≥ 2 ^ 64 then "bad-op"
+      else if is32 then (if a ≥ 2 ^ 32 ∨ b ≥ 2 ^ 32 then "bad-op" else sfopLine binary32 32 a b n)
+      else (if a ≥ 2 ^ 64 ∨ b ≥ 2 ^ 64 then "bad-op" else sfopLine binary64 64 a b n)
+    | _, _, _, _ => "bad-op"
   | [["quant.perfect", f, b, p, tbl, w]] =>
     match parseFloatTy f, parseHex b, parseHex p, parseList tbl, parseList w with
     | some is32, some B, some P, some tbl, some w =>
@@ -353,7 +382,8 @@ def handle (segs : List (List String)) : String :=
     match parseFloatTy f, parseHex b, parseHex p, parseOptHex norm, parseList tbl with
     | some is32, some B, some P, some norm, some tbl =>
       if P = 0 ∨ P > B then "bad-op"
-      else if is32 then lazyLine f32Ops B P norm tbl ops else lazyLine f64Ops B P norm tbl ops
+      else if is32 then both (lazyLine sf32Ops B P norm tbl ops) (lazyLine f32Ops B P norm tbl ops)
+      else both (lazyLine sf64Ops B P norm tbl ops) (lazyLine f64Ops B P norm tbl ops)
     | _, _, _, _, _ => "bad-op"
   | [["quant.new", sym, b, p, mn, mx]] =>
     match newLine sym b p mn mx with
